@@ -19,9 +19,9 @@ func (c20) Technique() string {
 }
 func (c20) Runs(tier string) int {
 	if tier == "thorough" {
-		return 1500000
+		return 7500000
 	}
-	return 100000
+	return 500000
 }
 func (c20) Rule() string {
 	return "tree of 3-9 stacks (every kind, parenthetical flags, single-child chains, empty stacks, shared sub-stacks, index options) and 0-3 Conditions holding stacks or primitives, built by seeded Push/SetExpression histories; SetMutex on a random subset; sequential (70%): Reveal on the root, once or twice; concurrent (30%): Reveal on the root while 1-2 tasks Push/Pop/Insert on nested nodes. non-trivial = at least one wrapper was actually removed (sequential) or a context switch happened while Reveal held a lock (concurrent); distinct = hash(tree shape with flags / schedule)"
@@ -121,7 +121,9 @@ func (c20) Gen(r *Rng, tier string, run int) *Trace {
 	conc := r.Bool(0.3)
 	mutexP := 0.3
 	if conc {
-		mutexP = 0.8
+		// every node other tasks mutate must have its mutex: unsynchronised
+		// concurrent mutators are promised nothing
+		mutexP = 1
 	}
 	for _, s := range stacks {
 		if r.Bool(mutexP) {
